@@ -156,4 +156,5 @@ Laws ==
 ASSUME \A ti \in 1..NT : Types[ti][1] \in {"vec", "set", "map"} => MinSize(ElemTy(Types[ti], 1)) > 0
 LongQuick    == <<127, 128>>
 LongThorough == <<127, 128, 300, 16383, 16384>>
+LongMid      == <<127, 128, 300, 2000>>
 =============================================================================
